@@ -10,3 +10,5 @@ cd "$HERE/mc"
 cargo build --offline -p checks --bins 2>&1 | tail -3
 # clap with its default features only (C04 second pass)
 cargo build --offline -p checks_default --bins 2>&1 | tail -1
+# clap with wrap_help but without color/unicode (C20 third pass)
+cargo build --offline -p checks_nocolor --bins 2>&1 | tail -1
